@@ -267,6 +267,7 @@ def expand(template_path, repo, vacuity=False):
             text = sf.text[a:b]
             if "pubfields" in opts:
                 text = _pubfields(sf, kw, en, a)
+                text = re.sub(r"\bpub\s*\(\s*(super|crate|self|in\s+[^)]*)\s*\)", "pub", text)
             for o in opts:
                 if o.startswith("retype="):
                     # a field whose type is outside the subset is given an opaque stand-in type (declared edit)
